@@ -95,6 +95,14 @@ theorem C18_cancel_unblocks (s : State) (me : Nat) (op : Op) (rest : List Op) (h
     | exact finish_ctl _ _ _ _ _
     | simp_all [State.R, State.setR, State.setBc, State.setCh, State.setMx, State.setSm, tagIf]
 
+-- OPEN (full strength of "cleanup terminates with every routine dead"):
+--   theorem C18_cleanup_all_dead (ops) : ∀ r < (run init ops).n, after `.cleanup` ((…).R r).freed = true ∧ stuck = false
+-- Proved instead: `C18_cancel_unblocks` (no operation of a cancelled routine can block, so every
+-- switch made by `cleanup()` runs the routine to the end of its finite script) and the invariant
+-- through `cleanup` (`cleanup_inv`).  What is missing is the cabinet bookkeeping lemma "every live
+-- routine sits in its cell, so one sweep visits it"; the model reports a second non-empty sweep as
+-- `stuck`, the driver prints it, and the differential run has never seen it.
+
 /-- a blocking operation of the property -/
 def blocking : Op → Bool
   | .recv _ | .lock _ | .acquire _ | .bwait _ | .cwait _ | .join _ => true
